@@ -15,7 +15,14 @@ MCMangledPkgs == {"w_leadnl", "w_lsml", "w_nlonly"}
 
 AllCfgs == CfgClasses
 AllInits == UserKinds \cup {"absent"}
-W(id, pkgs, cfgs, inits) == [id |-> id, pkgs |-> pkgs, gopkgs |-> pkgs \cap {"root", "sub"}, cfgs |-> cfgs, inits |-> inits]
+WE(id, pkgs, cfgs, inits, envs) == [id |-> id, pkgs |-> pkgs, gopkgs |-> pkgs \cap {"root", "sub"}, cfgs |-> cfgs, inits |-> inits, envs |-> envs]
+W(id, pkgs, cfgs, inits) == WE(id, pkgs, cfgs, inits, {"none"})
+AllEnvs == EnvClasses
+
+\* init executed under MOCKERY_* configuration variables (none / one / several, boolean- and string-valued, the
+\* config-file variable, a key init does not write, an unknown key); load and run in a clean environment
+EnvQ == WE("env", {"sub", "w_colonsp"}, {"default", "rel"}, {"absent"}, AllEnvs)
+EnvT == WE("env", {"root", "sub", "w_colonsp"}, {"default", "rel", "abs", "cwdsub", "after"}, {"absent", "dangling"}, AllEnvs)
 
 \* main world: every --config class x every initial content, both Go packages and two odd strings
 Main == W("main", {"root", "sub", "w_colonsp", "w_brace"}, AllCfgs, AllInits)
@@ -47,9 +54,9 @@ StrWorlds == {StrWorld("s1", Odd1), StrWorld("s2", Odd2), StrWorld("s3", Odd3), 
               StrWorld("s9", Odd9), StrWorld("s10", Odd10), StrWorld("s11", Odd11), StrWorld("s12", Odd12), StrWorld("s13", Odd13), StrWorld("s14", Odd14)}
 
 OddModsQ == {"m_true", "m_null", "m_int", "m_float", "m_yes", "m_date", "m_punct", "m_hex"}
-MCWorldsQuick == {MainQ} \cup {OddWorld(m) : m \in OddModsQ} \cup StrWorlds
+MCWorldsQuick == {MainQ, EnvQ} \cup {OddWorld(m) : m \in OddModsQ} \cup StrWorlds
 \* thorough: the same alphabets in more --config classes and initial contents
-OddWorldT(m) == W(m, {"root", "sub"}, {"default", "rel", "abs", "cwdsub", "after"}, {"absent", "valid"})
+OddWorldT(m) == WE(m, {"root", "sub"}, {"default", "rel", "abs", "cwdsub", "after"}, {"absent", "valid"}, {"none", "several"})
 StrWorldT(w) == W(w.id, w.pkgs, {"default", "rel", "abs", "subdir", "cwdsub", "eqform"}, {"absent", "valid", "empty", "twin", "link"})
-MCWorldsThorough == {Main} \cup {OddWorldT(m) : m \in OddMods} \cup {StrWorldT(w) : w \in StrWorlds}
+MCWorldsThorough == {Main, EnvT} \cup {OddWorldT(m) : m \in OddMods} \cup {StrWorldT(w) : w \in StrWorlds}
 =============================================================================
